@@ -217,4 +217,24 @@ pub proof fn lemma_first_true_stable(ps: Seq<bool>, k: int, n: int)
 {
     if k < n { lemma_first_true_stable(ps, k, n - 1); }
 }
+
+/// R-std: `ItemPath::from(s)` (the `From<&str>` impl splits at `::`; its anonymous lifetimes cannot be named in an
+/// assume_specification, so the call goes through this trusted wrapper whose body is the original call)
+#[verifier::external_body]
+pub fn v_item_path_from_str(value: &str) -> (r: crate::grammar::ItemPath)
+    ensures r == crate::verif_specs::spec_path_from_str(value@)
+{
+    crate::grammar::ItemPath::from(value)
+}
+pub assume_specification [<crate::semantic::Module as Default>::default] () -> (r: crate::semantic::Module);
+pub assume_specification [<crate::semantic::types::TypeDefinition as Default>::default] () -> (r: crate::semantic::types::TypeDefinition)
+    ensures r.regions@.len() == 0, r.doc is None, r.associated_functions@.len() == 0, r.vftable is None, r.singleton is None,
+            !r.copyable, !r.cloneable, !r.defaultable, !r.packed;
+
+pub assume_specification [crate::semantic::types::TypeDefinition::with_copyable] (s: crate::semantic::types::TypeDefinition, copyable: bool) -> (r: crate::semantic::types::TypeDefinition)
+    ensures r == (crate::semantic::types::TypeDefinition { copyable: copyable, ..s });
+pub assume_specification [crate::semantic::types::TypeDefinition::with_cloneable] (s: crate::semantic::types::TypeDefinition, cloneable: bool) -> (r: crate::semantic::types::TypeDefinition)
+    ensures r == (crate::semantic::types::TypeDefinition { cloneable: cloneable, ..s });
+pub assume_specification [crate::semantic::types::TypeDefinition::with_defaultable] (s: crate::semantic::types::TypeDefinition, defaultable: bool) -> (r: crate::semantic::types::TypeDefinition)
+    ensures r == (crate::semantic::types::TypeDefinition { defaultable: defaultable, ..s });
 }
